@@ -87,8 +87,8 @@ def bound_rows(F, R, f):
                 if not role:
                     # literal arm (default range): must add no row
                     R.ob("T-BOUNDROWS", "%s:default-arm" % v, not rows, F.loc(f, ia["body"]), "the default-range arm %s must add no bound row" % sexp(p))
-                    lits = [sexp(x) for x in p["pats"]]
-                    want = [default if pos.get(k) == "min" else "f64::INFINITY" for k in range(len(lits))]
+                    lits = [sexp(x).rsplit("::", 1)[-1] for x in p["pats"]]
+                    want = [default.rsplit("::", 1)[-1] if pos.get(k) == "min" else "INFINITY" for k in range(len(lits))]
                     R.ob("T-BOUNDROWS", "%s:default-range" % v, lits == want, F.loc(f, ia["body"]), "default range pattern %s, expected %s" % (lits, want))
                     continue
                 for row in rows:
